@@ -18,3 +18,6 @@ mod ringbuffer;
 pub(crate) mod scratch;
 pub(crate) mod sequence_execution;
 pub(crate) mod sequence_section_decoder;
+
+#[cfg(ruzstd_verif)]
+pub use ringbuffer::RingBuffer as VerifRingBuffer;
